@@ -2314,8 +2314,12 @@ where
                 message: e.to_string(),
             })?;
 
-    let context = build_k1_forward_context_from_cell(tds, cell_key, vertex_key)?;
-    let result = apply_bistellar_flip::<K, U, V, D, 1>(tds, kernel, &context);
+    // Build the context without `?`: a failure here (e.g. a missing cell) must also take the
+    // cleanup path below, otherwise the freshly inserted vertex would be left behind.
+    let result = match build_k1_forward_context_from_cell(tds, cell_key, vertex_key) {
+        Ok(context) => apply_bistellar_flip::<K, U, V, D, 1>(tds, kernel, &context),
+        Err(e) => Err(e),
+    };
 
     if result.is_err()
         && let Some(inserted) = tds.get_vertex_by_key(vertex_key).copied()
